@@ -744,6 +744,30 @@ class ParallelProcess(Process):
         self._schema = process.schema
         self._pending_command: Optional[
             Tuple[str, Optional[tuple], Optional[dict]]] = None
+        # Whether the result of the pending command has been received.
+        self._collected = False
+
+    def __deepcopy__(self, memo: dict) -> Process:
+        '''Copy the managed process, e.g. for the daughters of a division.
+
+        The pipe and the OS process of this object cannot be copied, and
+        the process itself lives in the worker. The copy is the process
+        as the worker holds it, after the command in flight if there is
+        one. It is marked parallel like the original, so the engine
+        gives it a worker of its own.
+        '''
+        pending = self._pending_command
+        if pending:
+            # Whoever waits for the result of the command in flight can
+            # still fetch it with get_command_result().
+            result = self.get_command_result()
+        command = 'generate_steps' if self._is_step else 'generate_processes'
+        copied = self.run_command(command, ({'name': 'copy'},))['copy']
+        if pending:
+            self._pending_command = pending
+            self._command_result = result
+            self._collected = True
+        return copied
 
     def send_command(
             self, command: str, args: Optional[tuple] = None,
@@ -776,9 +800,11 @@ class ParallelProcess(Process):
                 'Trying to retrieve command result, but no command is '
                 'pending.')
         self._pending_command = None
-        if self._ended:
-            # The worker has exited. Hand out the result that end()
+        if self._ended or self._collected:
+            # The worker has exited, or the result has been received
+            # already (see __deepcopy__). Hand out the result that was
             # collected, if any.
+            self._collected = False
             result, self._command_result = self._command_result, None
             return result
         verif_hooks.emit('recv', name=self.name)
